@@ -10,7 +10,7 @@ import re
 
 import vlib, ucheck
 from vlib import VERIF
-from C28 import load_known, report, hx, conformance
+from C28 import load_known, report, hx, conformance, deep_stack
 
 SPEC = os.path.join(VERIF, 'spec', 'syntax')
 FLAGS = ['public', 'no-store', 'no-transform', 'must-revalidate', 'proxy-revalidate', 'only-if-cached', 'immutable']
@@ -173,6 +173,7 @@ def show(case):
 
 
 def run(ctx):
+    deep_stack()
     el = elem_texts(small=True)
     ep = os.path.join(vlib.mkdirs(os.path.join(ctx.work, 'traces')), 'cc-elems.ndjson')
     with open(ep, 'w') as f:
